@@ -223,7 +223,7 @@ def acceptResponse (st : State) (node conn : Nat) (p : Peer) (r : Response) (n p
   (reconnect a.2.1 node conn a.1 r.key pick, .ok (a.2.2 ++ [.blockchainReq conn]))
 
 /-- `Network::handle_handshake_response` → `Peer::handle_handshake_response`, checks in code order -/
-def deliverResponse (st : State) (node conn : Nat) (r : Response) (pick : Nat) : State × Out :=
+def deliverResponse (fx : Bool) (st : State) (node conn : Nat) (r : Response) (pick : Nat) : State × Out :=
   match mget st.peers (node, conn) with
   | none => (st, .ok [])
   | some p =>
@@ -234,7 +234,8 @@ def deliverResponse (st : State) (node conn : Nat) (r : Response) (pick : Nat) :
         if r.sig ≠ some (r.key, n) then failResponse st node conn p       -- peer.rs:254 verify(stored, sig, claimed key)
         else if r.ver ≠ .ok then failResponse st node conn p              -- peer.rs:281
         else match p.key with
-          | some k => if k ≠ r.key then (st, .panic)                      -- peer.rs:296-302
+          | some k => if k ≠ r.key then                                   -- peer.rs:296-302
+                        (if fx then failResponse st node conn p else (st, .panic))
                       else acceptResponse st node conn p r n pick
           | none => acceptResponse st node conn p r n pick
 
@@ -243,8 +244,10 @@ def attackerSign (H : Nat) (st : State) (k n : Nat) : State × Out :=
     ({ st with sigs := (k, n) :: st.sigs, log := .signed k n none :: st.log }, .ok [])
   else (st, .rejected)
 
-/-- one step of the system with `H` honest nodes `0 … H-1` -/
-def step (H : Nat) (st : State) (op : Op) : State × Out :=
+/-- one step of the system with `H` honest nodes `0 … H-1`.
+    `fx`: the key-mismatch branch of `handle_handshake_response` refuses the response like every other failed check
+    (repaired) instead of `assert_eq!` (pinned) -/
+def step (fx : Bool) (H : Nat) (st : State) (op : Op) : State × Out :=
   match op with
   | .addStatic node conn => if node < H then addStatic st node conn else (st, .rejected)
   | .connect node conn => if node < H then connect st node conn else (st, .rejected)
@@ -252,19 +255,19 @@ def step (H : Nat) (st : State) (op : Op) : State × Out :=
   | .deliverChallenge node conn n =>
     if node < H ∧ n < st.next then deliverChallenge st node conn n else (st, .rejected)
   | .deliverResponse node conn r pick =>
-    if node < H ∧ r.challenge < st.next ∧ (∀ s, r.sig = some s → s ∈ st.sigs) then deliverResponse st node conn r pick
+    if node < H ∧ r.challenge < st.next ∧ (∀ s, r.sig = some s → s ∈ st.sigs) then deliverResponse fx st node conn r pick
     else (st, .rejected)
   | .attackerSign k n => attackerSign H st k n
 
 /-- state after a script -/
-def run (H : Nat) (ops : List Op) : State := ops.foldl (fun st op => (step H st op).1) init
+def run (fx : Bool) (H : Nat) (ops : List Op) : State := ops.foldl (fun st op => (step fx H st op).1) init
 
 /-- `run` with the outputs -/
-def runOut (H : Nat) (st : State) : List Op → State × List Out
+def runOut (fx : Bool) (H : Nat) (st : State) : List Op → State × List Out
   | [] => (st, [])
   | op :: ops =>
-    let r := step H st op
-    let rest := runOut H r.1 ops
+    let r := step fx H st op
+    let rest := runOut fx H r.1 ops
     (rest.1, r.2 :: rest.2)
 
 end Saito.Hs
